@@ -1,3 +1,124 @@
+import Driver.Util
 import Driver.Loop
-/- placeholder: the C04 view has no executable model yet -/
-def main : IO Unit := Drv.runLoop fun _ => .atom "bad-op"
+import PMV.Model.Dispatch
+/- line-protocol handlers for the C04 view (operator dispatch, axis alignment, exact values) -/
+namespace Drv.C04
+open PMV PMV.Dispatch Drv
+
+def parseCls : String → Option Cls
+  | "Qube" => some .qube | "Scalar" => some .scalar | "Boolean" => some .boolean | "Vector" => some .vector
+  | "Vector3" => some .vector3 | "Pair" => some .pair | "Matrix" => some .matrix | "Matrix3" => some .matrix3
+  | "Quaternion" => some .quaternion | "-" => some .qube | _ => none
+
+def clsName : Cls → String
+  | .qube => "Qube" | .scalar => "Scalar" | .boolean => "Boolean" | .vector => "Vector" | .vector3 => "Vector3"
+  | .pair => "Pair" | .matrix => "Matrix" | .matrix3 => "Matrix3" | .quaternion => "Quaternion"
+
+def parseKind : String → Option Kind
+  | "bool" => some .bool | "int" => some .int | "float" => some .float | _ => none
+
+def kindName : Kind → String
+  | .bool => "bool" | .int => "int" | .float => "float"
+
+def parseSrc : String → Option Src
+  | "qube" => some .qube | "num" => some .num | "nd" => some .nd | "ma" => some .ma | "list" => some .list | _ => none
+
+def parseOp : String → Option OpSym
+  | "add" => some .add | "sub" => some .sub | "mul" => some .mul | "div" => some .div | "floordiv" => some .floordiv
+  | "mod" => some .mod | _ => none
+
+structure Opd where
+  d : Desc
+  vals : Array Int
+
+def parseOpd : Sx → Option Opd
+  | .list [.atom src, .atom cls, .atom kind, sh, nu, de, vs, _mask, un] => do
+    let src ← parseSrc src
+    let cls ← parseCls cls
+    let kind ← parseKind kind
+    let shape ← sh.nats?
+    let numer ← nu.nats?
+    let denom ← de.nats?
+    let vals ← vs.ints?
+    let units ← match un with
+      | .atom "-" => some none
+      | x => (x.ints?).map some
+    some ⟨Desc.constructed { src := src, cls := cls, kind := kind, shape := shape, numer := numer, denom := denom,
+                             units := units }, vals.toArray⟩
+  | _ => none
+
+def Opd.arr (o : Opd) : Arr Int := Arr.ofFlat o.d.full o.vals
+
+def rejSx : Rej → Sx
+  | .valueError => .atom "ValueError"
+  | .typeError => .atom "TypeError"
+
+/-- rows of exact values, one per leading index; blanked rows print `m` -/
+def rows (lead item : Shape) (blank : Array Bool) (get : Index → Int) : Sx :=
+  let idx := indices lead
+  let useBlank := blank.size == idx.length
+  .list (idx.zipIdx.map fun (i, n) =>
+    if useBlank && blank[n]! then .atom "m"
+    else Sx.ofInts ((indices item).map fun j => get (i ++ j)))
+
+def head (r : Res) : List Sx :=
+  [.atom (clsName r.cls), .atom (kindName r.kind), Sx.ofNats r.lead, Sx.ofNats r.numer, Sx.ofNats r.denom]
+
+def binary (op : OpSym) (a b : Opd) (blank : Array Bool) : Sx :=
+  let zeroNum := b.d.isNum && b.vals.all (· == 0)
+  match dispatch op a.d b.d zeroNum with
+  | none => .atom "unmodelled"
+  | some (.error e) => rejSx e
+  | some (.ok r) =>
+    if op == .div then .list (head r ++ [.atom "-"])
+    else
+      let item := r.numer ++ r.denom
+      match r.plan with
+      | .ew _ pa ra pb rb =>
+        match ewValues op pa ra pb rb a.arr b.arr with
+        | some v => .list (head r ++ [rows r.lead item blank v.get])
+        | none => err "plan-does-not-broadcast"
+      | .right => .list (head r ++ [rows r.lead item blank fun i => b.arr.get i * 8])
+      | .dot =>
+        let v := dotValues a.d b.d r.lead a.arr b.arr
+        .list (head r ++ [rows r.lead item blank v.get])
+
+def unaryH (op : UnOp) (a : Opd) (blank : Array Bool) : Sx :=
+  match unary op a.d with
+  | none => .atom "unmodelled"
+  | some (.error e) => rejSx e
+  | some (.ok r) =>
+    let f : Int → Int := match op with
+      | .neg => fun x => -x
+      | .abs => fun x => if x < 0 then -x else x
+      | .pos => id
+    .list (head r ++ [rows r.lead (r.numer ++ r.denom) blank fun i => f (a.arr.get i)])
+
+def parseBlank : Sx → Array Bool
+  | x => match x.bools? with
+    | some l => l.toArray
+    | none => #[]
+
+def handle : List Sx → Sx
+  | [.atom "bshape", s0, s1] =>
+    match s0.nats?, s1.nats? with
+    | some a, some b =>
+      match bcast a b with
+      | some r => .list [.atom "shape", Sx.ofNats r]
+      | none => .atom "ValueError"
+    | _, _ => err "shape"
+  | [.atom "neg", a, bl] => match parseOpd a with | some a => unaryH .neg a (parseBlank bl) | none => err "operand"
+  | [.atom "abs", a, bl] => match parseOpd a with | some a => unaryH .abs a (parseBlank bl) | none => err "operand"
+  | [.atom "pos", a, bl] => match parseOpd a with | some a => unaryH .pos a (parseBlank bl) | none => err "operand"
+  | [.atom op, a, b, bl] =>
+    match parseOp op, parseOpd a, parseOpd b with
+    | some op, some a, some b => binary op a b (parseBlank bl)
+    | _, _, _ => err "operand"
+  | _ => err "c04-op"
+
+end Drv.C04
+
+def main : IO Unit := Drv.runLoop fun x =>
+  match x with
+  | .list (.atom "c04" :: rest) => Drv.C04.handle rest
+  | _ => .atom "bad-op"
